@@ -114,12 +114,24 @@ for ev in sorted(glob.glob("/tmp/mut/*-out/eval*.json")):
     json.dump(meta, open(meta_path, "w"), indent=1)
     rows.append((name, prop, title, meta["caught_by"], entry))
 
+# changes kept by earlier sessions (their sub-agent output directories are gone): the row comes
+# from the meta.json already under /verif/seeded
+have = {r[0] for r in rows}
+for mp in glob.glob("/verif/seeded/*/meta.json"):
+    name = os.path.basename(os.path.dirname(mp))
+    if name in have:
+        continue
+    m = json.load(open(mp))
+    hist = m.get("detection_history") or [{}]
+    rows.append((name, m["breaks_property"], m.get("title", ""), m.get("caught_by", []), hist[-1]))
+rows.sort(key=lambda r: r[0])
+
 with open("/verif/seeded/RESULTS.md", "w") as f:
     f.write("# Seeded changes and the checks that catch them\n\n")
     f.write("Each row is one source change written by an independent sub-agent (given only the property text),\n")
     f.write("confirmed in a scratch worktree (suite passes with it, demonstration fails with it and passes without),\n")
     f.write("then applied to /repo for one run of the quick check(s) and reverted. `exit 1` = caught.\n")
-    f.write("`<property>-<n>` is the first round, `<property>-b<n>` the second, `<property>-c<n>` the third and `<property>-d<n>` the fourth (each told the titles of the earlier ones, to get a different kind).\n\n")
+    f.write("`<property>-<n>` is the first round, `<property>-b<n>` the second, `<property>-c<n>` the third, `<property>-d<n>` the fourth and `<property>-e<n>` the fifth (six properties, one change each; each told the titles of the earlier ones, to get a different kind).\n\n")
     f.write("| seeded change | what it is | caught by (quick tier) | last evaluation | missed at first? |\n|---|---|---|---|---|\n")
     for name, prop, title, caught, entry in rows:
         res = ", ".join(f"{p}: exit {d['exit']}" for p, d in sorted(entry.items()))
